@@ -4,6 +4,8 @@ import Pcore.Proofs.LatTransAll
 import Pcore.Proofs.LatTransGAll
 import Pcore.Proofs.LatTransDMain
 import Pcore.Proofs.LatReflAll
+import Pcore.Proofs.LatWeakenAll
+import Pcore.Proofs.LatCtx
 set_option linter.unusedSimpArgs false
 /-!
 # C03 — Assignability is a preorder, monotone per constructor, consistent with equality
@@ -32,7 +34,11 @@ Full statement / proved / missing
   `C03_mono_tuple` (any slot), `C03_mono_struct` (any member's value type), `C03_mono_variant`, `C03_mono_optional`, `C03_mono_notUndef`,
   `C03_mono_type`, `C03_mono_sensitive`, `C03_mono_iterable` (sibling parts reflexive by `C03_refl`).
 * widening — PROVED for every range position: `C03_widen_int`, `_float`, `_timespan`, `_string`, `_collection`, `_array`, `_hash`, `_tuple`
-  (an explicit Tuple size).
+  (an explicit Tuple size); `C03_widen_*_all`: the same for EVERY right-hand type (no `NoAliasR`: `left_weaken_all` takes the two aliases as
+  extra hypotheses, vacuous for a receiver that rejects Undef).
+* every one-hole context — `C03_mono_ctx` PROVED: `asg a b → asg (C.fill a) (C.fill b)` for every context `C` of covariant positions nested
+  to any depth, siblings merely well-formed (aliases anywhere); `C03_mono_hash_key_all`, `_hash_value_all`, `_tuple_all`, `_struct_all` are
+  the per-hole laws without `NoAlias`.
 * transitivity — `C03_trans` is kept as a `def … : Prop`.  It is FALSE of the code: `C03_trans_fails_sfh` (PERMANENT: the by-specification
   Struct-from-Hash rule, known finding C03-trans-struct-from-hash).  The second former counterexample (Iterable had no Struct arm, finding
   C03-trans-iterable) was repaired in /repo: `C03_iterable_struct_repaired`.  `C03_trans_partial` is PROVED, unbounded, for both settings of the rule: on the fragment `Ty.TF` = hereditarily
@@ -187,6 +193,70 @@ theorem C03_widen_tuple (cfg : Cfg) (sfh : Bool) (ts : List Ty) (r r' : Rng) (hr
   widen_tuple cfg sfh ts r r' hr b hb h
 theorem C03_widen_hash (cfg : Cfg) (sfh : Bool) (k v : Ty) (r r' : Rng) (hr : r'.sub r = true) (b : Ty) (hb : b.NoAliasR)
     (h : asg cfg sfh (.hash k v r) b = true) : asg cfg sfh (.hash k v r') b = true := widen_hash cfg sfh k v r r' hr b hb h
+
+/-! ### the laws above WITHOUT the `NoAlias` / `NoAliasR` side conditions (extension round) -/
+/-- monotone per hole with siblings that may hold the aliases: reflexivity of the sibling is `C03_refl_all` -/
+theorem C03_mono_hash_key_all (cfg : Cfg) (sfh : Bool) (k k' v : Ty) (r : Rng) (hwf : Ty.WF cfg v)
+    (h : asg cfg sfh k k' = true) : asg cfg sfh (.hash k v r) (.hash k' v r) = true :=
+  mono_hash_key cfg sfh k k' v r (C03_refl_all cfg sfh v hwf) h
+theorem C03_mono_hash_value_all (cfg : Cfg) (sfh : Bool) (k v v' : Ty) (r : Rng) (hwf : Ty.WF cfg k)
+    (h : asg cfg sfh v v' = true) : asg cfg sfh (.hash k v r) (.hash k v' r) = true :=
+  mono_hash_value cfg sfh k v v' r (C03_refl_all cfg sfh k hwf) h
+theorem C03_mono_tuple_all (cfg : Cfg) (sfh : Bool) (pre post : List Ty) (a b : Ty) (g : Option Rng)
+    (hsib : ∀ t ∈ pre ++ post, Ty.WF cfg t) (h : asg cfg sfh a b = true) :
+    asg cfg sfh (.tuple (pre ++ a :: post) g) (.tuple (pre ++ b :: post) g) = true :=
+  mono_tuple cfg sfh pre post a b g (fun t ht => C03_refl_all cfg sfh t (hsib t ht)) h
+theorem C03_mono_struct_all (cfg : Cfg) (sfh : Bool) (pre post : List Member) (n : String) (o : Bool) (t t' : Ty)
+    (hnd : NamesNodup (pre ++ (n, o, t) :: post))
+    (hsib : ∀ m ∈ pre ++ post, Ty.WF cfg m.2.2) (h : asg cfg sfh t t' = true) :
+    asg cfg sfh (.struct (pre ++ (n, o, t) :: post)) (.struct (pre ++ (n, o, t') :: post)) = true :=
+  mono_struct cfg sfh pre post n o t t' hnd (fun m hm => C03_refl_all cfg sfh m.2.2 (hsib m hm)) h
+
+/-- MONOTONE ALONG EVERY ONE-HOLE CONTEXT (the property's quantifier): `Ctx` = any nesting of the covariant positions (Array element,
+    Hash key / value, Tuple slot, Struct member, Variant member, Optional, NotUndef, Type, Sensitive, Iterable); the sibling types along the
+    path are well-formed (aliases allowed anywhere), Struct member names on the path pairwise different; `a`, `b` arbitrary -/
+theorem C03_mono_ctx (cfg : Cfg) (sfh : Bool) (C : Ctx) (a b : Ty) (hC : C.WF cfg) (h : asg cfg sfh a b = true) :
+    asg cfg sfh (C.fill a) (C.fill b) = true := mono_ctx cfg sfh a b h C hC
+
+/-- non-vacuity: the context Array[Struct[{k => Variant[Data, Tuple[String, □]]}], 0, 5] is well-formed, and filled with Integer it is
+    the expected type -/
+example (cfg : Cfg) :
+    (Ctx.array (.struct [] "k" false (.variant [.data] (.tuple [.str] .hole [] none) []) [("z", true, .richData)]) ⟨0, 5⟩).WF cfg ∧
+    (Ctx.array (.struct [] "k" false (.variant [.data] (.tuple [.str] .hole [] none) []) [("z", true, .richData)]) ⟨0, 5⟩).fill (.int Rng.all)
+      = .array (.struct [("k", false, .variant [.data, .tuple [.str, .int Rng.all] none]), ("z", true, .richData)]) ⟨0, 5⟩ := by
+  constructor
+  · simp [Ctx.WF, Ty.WF]
+  · simp [Ctx.fill]
+
+/-- widening a range in the receiver never turns acceptance into rejection — for EVERY right-hand type `b` (Data / RichData, or a Variant /
+    Optional / NotUndef holding them, included): a range-carrying receiver rejects Undef, hence both aliases, so the alias cases of the
+    left-weakening principle are vacuous (`left_weaken_nu`) -/
+theorem C03_widen_int_all (cfg : Cfg) (sfh : Bool) (r r' : Rng) (hr : r'.sub r = true) (b : Ty)
+    (h : asg cfg sfh (.int r) b = true) : asg cfg sfh (.int r') b = true := widen_int_all cfg sfh r r' hr b h
+theorem C03_widen_float_all (cfg : Cfg) (sfh : Bool) (lo hi lo' hi' : Fl) (hlo : lo' ≤ lo) (hhi : hi ≤ hi') (b : Ty)
+    (h : asg cfg sfh (.float lo hi) b = true) : asg cfg sfh (.float lo' hi') b = true :=
+  widen_float_all cfg sfh lo hi lo' hi' hlo hhi b h
+theorem C03_widen_timespan_all (cfg : Cfg) (sfh : Bool) (r r' : Rng) (hr : r'.sub r = true) (b : Ty)
+    (h : asg cfg sfh (.tspan r) b = true) : asg cfg sfh (.tspan r') b = true := widen_tspan_all cfg sfh r r' hr b h
+theorem C03_widen_string_all (cfg : Cfg) (sfh : Bool) (r r' : Rng) (hr : r'.sub r = true) (b : Ty)
+    (h : asg cfg sfh (.strSz r) b = true) : asg cfg sfh (.strSz r') b = true := widen_strSz_all cfg sfh r r' hr b h
+theorem C03_widen_collection_all (cfg : Cfg) (sfh : Bool) (r r' : Rng) (hr : r'.sub r = true) (b : Ty)
+    (h : asg cfg sfh (.coll r) b = true) : asg cfg sfh (.coll r') b = true := widen_coll_all cfg sfh r r' hr b h
+theorem C03_widen_array_all (cfg : Cfg) (sfh : Bool) (e : Ty) (r r' : Rng) (hr : r'.sub r = true) (b : Ty)
+    (h : asg cfg sfh (.array e r) b = true) : asg cfg sfh (.array e r') b = true := widen_array_all cfg sfh e r r' hr b h
+theorem C03_widen_tuple_all (cfg : Cfg) (sfh : Bool) (ts : List Ty) (r r' : Rng) (hr : r'.sub r = true) (b : Ty)
+    (h : asg cfg sfh (.tuple ts (some r)) b = true) : asg cfg sfh (.tuple ts (some r')) b = true :=
+  widen_tuple_all cfg sfh ts r r' hr b h
+theorem C03_widen_hash_all (cfg : Cfg) (sfh : Bool) (k v : Ty) (r r' : Rng) (hr : r'.sub r = true) (b : Ty)
+    (h : asg cfg sfh (.hash k v r) b = true) : asg cfg sfh (.hash k v r') b = true := widen_hash_all cfg sfh k v r r' hr b h
+
+/-- non-vacuity: a right-hand side the old laws excluded — Array[Integer[0,9], 1, 2] ⊒ NotUndef[Variant[…]] is not needed; the simplest
+    one: `Collection[0,5] ⊒ Variant[Array[Data,1,2], Hash[String,RichData,0,3]]` and `[0,5] ⊆ [0,9]` -/
+example (cfg : Cfg) :
+    asg cfg true (.coll ⟨0, 5⟩) (.variant [.array .data ⟨1, 2⟩, .hash .str .richData ⟨0, 3⟩]) = true ∧ Rng.sub ⟨0, 9⟩ ⟨0, 5⟩ = true := by
+  constructor
+  · simp [asg, asgRecv, asgAllR, sameNullary, Rng.sub]
+  · simp [Rng.sub]
 
 /-! ### non-vacuity -/
 def exT : Ty := .variant [.tuple [.int ⟨0, 5⟩, .optional .str] none, .struct [("a", false, .enum ["x"] true)]]
